@@ -28,19 +28,22 @@ func init() {
 	hx.Register(&hx.Prop{
 		ID: "C08",
 		Rule: "exhaustive blocks: (1) all 64 subsets of the response keys {200,201,2XX,4XX,404,default} × 18 status codes (incl. 99,100,599,600,0,-1 and the four skipped codes) × strict × GET/HEAD, " +
-			"each entry tagged by its own required header so that the entry chosen is observable (response without headers, and response carrying every tag header but one: rejected exactly when that entry is selected), other class keys (1XX,3XX,5XX,6XX,2xx,XXX) × boundary codes; (2) header kinds (string, integer, boolean, untyped, array, object with write-only property, described by content) × raw values × required × present/absent × options, pairs of failing headers, the ignored Content-Type header, a non-canonical declared name; " +
-			"(3) 9 content maps × 10 Content-Type values × body kinds; (4) object schemas with all subsets of required ⊆ {a,ro,wo,z} × all key subsets of {a,ro,wo,x} × null/non-null write-only value × additionalProperties {absent,false,schema} × options, at top level, nested under a property and inside an array; " +
-			"then a seeded random stream of response maps, headers, schemas of depth ≤ 3 and schema-directed values (valid and mutated). " +
-			"A case is non-trivial when the model reports at least one non-default branch (skip, selection kind, option in effect, header/body outcome, schema flags).",
+			"each entry tagged by its own required header so that the entry chosen is observable (response without headers, and response carrying every tag header but one: rejected exactly when that entry is selected), other class keys (1XX,3XX,5XX,6XX,2xx,XXX) × boundary codes; " +
+			"(2) 20 header kinds (string, integer, boolean, untyped, arrays of integer/string/boolean/untyped/object/array items, array without items, objects with write-only / read-only properties, described by content) × raw texts chosen for the decoder (signs, leading zeros, base prefixes, underscores, blanks, int64 bounds, the twelve ParseBool words and near-misses, empty and unparsable array items in every position) × required × present/absent × options, a second value of the same header, pairs of failing headers in both name orders, the ignored Content-Type header, a non-canonical declared name; " +
+			"(3) 12 content maps × 17 Content-Type values (registered JSON types, the two text decoders, unregistered types, parameters, a blank before ';', upper case, no slash, empty) × 7 bodies × ExcludeResponseBody; failing body reader; (4) object schemas with all subsets of required ⊆ {a,ro,wo,z} × all key subsets of {a,ro,wo,x} × null/non-null write-only value × additionalProperties {absent,false,schema} × options, at top level, nested under a property, inside an array and under additionalProperties; " +
+			"then a seeded random stream of response maps, headers (kind × listed or free text over the decoder's alphabet), schemas of depth ≤ 3 and schema-directed values (valid and mutated). " +
+			"A case is non-trivial when the model reports at least one non-default branch (skip, selection kind, option in effect, header decoding outcome, header/body outcome, decoder kind, schema flags).",
 		Exhaustive: true,
 		Gen:        genC08,
 		Run:        runC08,
 		Compare:    cmpC08,
 		Shrink:     shrinkC08,
 		Assumptions: []string{
-			"header decoding (simple style, C05) and body decoding (C06) are inputs of the model: each case states the expected decoded value; the header claim is checked against the real decoder through the verif hook on every case, the body claim by the comparison itself",
-			"numbers are small integers (no float rounding); strings are ASCII",
-			"documents are resolved (no nil ResponseRef.Value / SchemaRef.Value); headers use the default (simple) serialization",
+			"DecodeObject (object-valued headers: propsFromString / makeObject, C05) and the JSON body decoder (encoding/json, C06) are inputs of the model: each case states their outcome; the object-header claim is compared with the real decoder through the verif hook on every case, the JSON claim is computed by encoding/json in the generator and tied by the comparison itself",
+			"the decoding of every other header kind is computed by the model (decodeHeader) and compared with the real decoder (verif hook) on every case",
+			"numbers in schemas and bodies are small integers (no float rounding); header integers range over int64 and beyond; strings are ASCII",
+			"documents are resolved (no nil ResponseRef.Value / SchemaRef.Value); headers use the default (simple, not exploded) serialization; every present header has at least one value and only the first is decoded",
+			"no Content-Type whose registered decoder is YAML, CSV, urlencoded, multipart or zip is generated (their outcome would be an input of the model as well)",
 		},
 	})
 }
@@ -171,11 +174,15 @@ func runC08(c hx.Case) any {
 	hdr := http.Header{}
 	for _, p := range jlist(c["hdrs"]) {
 		kv := jlist(p)
-		if len(kv) == 2 {
+		if len(kv) >= 2 {
 			k, _ := kv[0].(string)
-			v, _ := kv[1].(string)
 			if _, dup := hdr[http.CanonicalHeaderKey(k)]; !dup {
-				hdr[http.CanonicalHeaderKey(k)] = []string{v}
+				vals := []string{}
+				for _, x := range kv[1:] { // further values of the same header: only the first one is ever decoded
+					v, _ := x.(string)
+					vals = append(vals, v)
+				}
+				hdr[http.CanonicalHeaderKey(k)] = vals
 			}
 		}
 	}
@@ -415,7 +422,7 @@ func c08HeaderKinds() []c08HK {
 		}
 		return out
 	}
-	ints := []string{"5", "50", "abc", "", "-3", "+5", "-0", "007", "1_0", "0x10", " 5", "5 ", "-", "+", "1e3", "1.0",
+	ints := []string{"5", "50", "abc", "", "-3", "+5", "-0", "007", "1_0", "0x10", "0x5", "0b11", "0o7", "0_7", "07", " 5", "5 ", "-", "+", "1e3", "1.0", "5.0",
 		"9223372036854775807", "9223372036854775808", "-9223372036854775808", "-9223372036854775809", "99999999999999999999999"}
 	bools := []string{"true", "x", "1", "t", "T", "TRUE", "True", "tRue", "0", "f", "F", "FALSE", "False", "false", "yes", " true", ""}
 	arrs := []string{"1,2", "5", "1,50", "1,x", "", "1,,2", ",1", "1,", "x,", ",x", "1,x,", ",", "+1,-0,007", "1, 2"}
@@ -549,6 +556,10 @@ func genC08(ctx *hx.Ctx, emit func(hx.Case)) {
 			emit(c08Case("GET", 200, []any{c08Resp("200", []any{c08Hdr("X-A", req, hk.schema, c08Nil)}, nil)}, []any{[]any{"X-Other", "1"}}, "", c08Err, 0))
 		}
 	}
+	for _, second := range []string{"x", "", "9"} { // a second value of the header is never looked at
+		emit(c08Case("GET", 200, []any{c08Resp("200", []any{c08Hdr("X-A", true, c08S("type", "integer", "maximum", 9), c08Err)}, nil)}, []any{[]any{"X-A", "5", second}}, "", c08Err, 0))
+		emit(c08Case("GET", 200, []any{c08Resp("200", []any{c08Hdr("X-A", true, c08S("type", "integer", "maximum", 9), c08Err)}, nil)}, []any{[]any{"X-A", "x", "5"}}, "", c08Err, 0))
+	}
 	for _, req := range []bool{false, true} { // described by content (finding #22, fixed)
 		emit(c08Case("GET", 200, []any{c08Resp("200", []any{c08Hdr("X-A", req, nil, c08Nil)}, nil)}, []any{}, "", c08Err, 0))
 		emit(c08Case("GET", 200, []any{c08Resp("200", []any{c08Hdr("X-A", req, nil, c08Nil)}, nil)}, []any{[]any{"X-A", "anything"}}, "", c08Err, 0))
@@ -672,9 +683,9 @@ func genC08(ctx *hx.Ctx, emit func(hx.Case)) {
 		}
 	}
 	// seeded random stream
-	n := 6000
+	n := 20000
 	if ctx.Thorough() {
-		n = 120000
+		n = 250000
 	}
 	for i := 0; i < n; i++ {
 		emit(c08Random(r, kinds))
@@ -867,7 +878,11 @@ func c08Random(r *hx.Rng, kinds []c08HK) hx.Case {
 					raw += hx.Pick(r, []string{"0", "1", "7", "9", "+", "-", ",", ",", "x", "t", "T", " ", "true", "12"})
 				}
 			}
-			hd = append(hd, []any{name, raw})
+			if r.Chance(8) {
+				hd = append(hd, []any{name, raw, hx.Pick(r, []string{"zzz", "", "7"})}) // a second value of the same header
+			} else {
+				hd = append(hd, []any{name, raw})
+			}
 		}
 		sel[name] = h
 	}
